@@ -1003,6 +1003,10 @@ impl ConnectBuilder {
 
         if let Some(ref will_props) = self.will_props {
             validate_will_properties(will_props)?;
+            // Will properties belong to a will: without one they would not be serialized
+            if !will_flag && !will_props.is_empty() {
+                return Err(MqttError::MalformedPacket);
+            }
         }
 
         Ok(())
